@@ -283,6 +283,13 @@ tagspec(struct scope *s)
 				}
 				assert(i < LEN(inttypes));
 			}
+			d = scopegetdecl(s, name, false);
+			if (d) {
+				if (d->kind != DECLCONST)
+					error(&tok.loc, "'%s' redeclared with different kind", name);
+				if (d->u.enumconst != value)
+					error(&tok.loc, "enumerator '%s' redefined with different value", name);
+			}
 			d = mkdecl(name, DECLCONST, et, QUALNONE, LINKNONE);
 			d->u.enumconst = value;
 			d->value = mkintconst(value);
